@@ -780,7 +780,6 @@ _NOTHM = ("decided by the per-step correspondence between the real code and the 
           "snapshot, enabled set and result after every scheduling step) plus the property's oracle on every real trace; "
           "the invariant that would state this property over all executions of the model is not proved yet - ")
 NO_THEOREM = {
-    "C04": _NOTHM + "needs the slot/tag/pin invariant (I4-I6 of DESIGN.md section 7); the model records every payload access that is not a complete live value in its ghost field g_bad",
     "C05": _NOTHM + "needs the ownership ledger invariant (I11); the model keeps a per-payload drop ledger (g_drops) that the correspondence compares with the real destructor calls",
     "C06": _NOTHM + "needs the refinement of quiescent states to the reference specification (Seq.v of the design is not written)",
     "C09": _NOTHM + "needs the refinement to the reference specification; the oracle is the reference model itself",
